@@ -74,28 +74,18 @@ theorem randIntervalWith_range (maskOf : Nat → Option Nat) (a b : Int) (stream
     · exact absurd h (by simp)
     · exact absurd h (by simp)
 
-/-- the C shift is defined exactly when the bit length of b−a is not a multiple of 64 -/
-theorem randInterval_ub_iff (a b : Int) (stream : List Nat) :
-    ibzRandInterval a b stream = .ub ↔ (randParams a b).lenBits % 64 = 0 := by
+/-- repaired code: the shift count is reduced modulo 64, the call never executes undefined behaviour -/
+theorem randInterval_ne_ub (a b : Int) (stream : List Nat) : ibzRandInterval a b stream ≠ .ub := by
   unfold ibzRandInterval ibzRandIntervalWith
   simp only
-  have hs : (randParams a b).shift = 64 - (randParams a b).lenBits % 64 := rfl
-  constructor
-  · intro h
-    split at h
-    · rename_i hm
-      simp only [shr64] at hm
-      split at hm
-      · exact absurd hm (by simp)
-      · omega
-    · rename_i mask hm
-      split at h
-      · exact absurd h (by simp)
-      · exact absurd h (by simp)
-      · rename_i hl; exact absurd hl (randLoop_ne_ub _ _ _ _ _ _)
-  · intro h
-    have : shr64 (2 ^ 64 - 1) (randParams a b).shift = none := by
-      simp only [shr64]; rw [hs, h]; simp
-    rw [this]
+  split
+  · simp
+  · simp
+  · rename_i hl; exact absurd hl (randLoop_ne_ub _ _ _ _ _ _)
+
+/-- the mask of the repaired code: `len_bits % 64` low bits, all 64 bits when `len_bits % 64 = 0` -/
+theorem mask_value : ∀ k : Nat, k < 64 →
+    (2 ^ 64 - 1) / 2 ^ ((64 - k) % 64) = if k = 0 then 2 ^ 64 - 1 else 2 ^ k - 1 := by
+  decide
 
 end SqiProofs.C17
